@@ -5,11 +5,21 @@
 (* from IOEnv.PATHS.  (ii) fault sets x option sets, with MustFail from Loader.tla.                                      *)
 EXTENDS Loader, Json, IOUtils, SequencesExt
 Paths == ndJsonDeserialize(IOEnv.PATHS)
-Kinds == {"null", "bool", "int", "float", "string", "empty-list", "list-of-strings", "list-of-maps", "empty-map", "map", "int-keyed-map", "nested-list", "repeated-strings", "repeated-maps",
-          "odd-strings", "odd-string", "unc-prefix", "drive-prefix", "odd-map", "reset-tag", "override-tag"}
-Positions == {"single", "override-top", "override-base", "extended-base", "extending", "included",
-              "pair-map", "pair-list", "pair-string", "extends-pair-map", "extends-pair-list", "extends-pair-string", "include-pair"}     \* the attribute present in both files: base of the given kind, override of the case kind
-SchemaKind(k) == CASE k \in {"empty-list", "list-of-strings", "list-of-maps", "nested-list", "odd-strings", "repeated-strings", "repeated-maps"} -> "array"
+KindSeq == <<"null", "bool", "int", "float", "string", "empty-list", "list-of-strings", "list-of-maps", "empty-map", "map", "int-keyed-map", "nested-list", "repeated-strings", "repeated-maps",
+          "odd-strings", "odd-string", "unc-prefix", "drive-prefix", "odd-map", "reset-tag", "override-tag", "list-of-ints", "yes-string">>
+Kinds == ToSet(KindSeq)
+PosSeq == <<"single", "override-top", "override-base", "extended-base", "extending", "included",
+              "pair-map", "pair-list", "pair-string", "extends-pair-map", "extends-pair-list", "extends-pair-string", "include-pair",
+              "extended-file-base">>   \* the document is another file, one of whose services the main file extends: that file is not validated before it is canonicalised and rebased     \* the attribute present in both files: base of the given kind, override of the case kind
+Positions == ToSet(PosSeq)
+\* the option set a kind case is loaded with: one of these per case, rotating with path, kind, position and the seed, so that
+\* every (path, kind) meets several of them across positions and every case meets all of them across seeds
+KindOpts == <<{}, {"SkipInterpolation"}, {}, {"SkipNormalization"}, {"NoResolvePaths"}, {}, {"SkipConsistencyCheck"}, {"SkipInterpolation", "SkipNormalization"}, {"SkipDefaultValues"}, {"SkipResolveEnvironment"}, {"SkipInterpolation", "SkipConsistencyCheck"}>>
+Rot == IF "ROT" \in DOMAIN IOEnv THEN IOEnv.ROT ELSE "0"
+RotN == CHOOSE r \in 0..20 : ToString(r) = Rot
+Index(seq, x) == CHOOSE i \in 1..Len(seq) : seq[i] = x
+OptsOf(i, k, pos) == KindOpts[((i + 3 * Index(KindSeq, k) + 5 * Index(PosSeq, pos) + RotN) % Len(KindOpts)) + 1]
+SchemaKind(k) == CASE k \in {"empty-list", "list-of-strings", "list-of-maps", "nested-list", "odd-strings", "repeated-strings", "repeated-maps", "list-of-ints"} -> "array"
                    [] k \in {"empty-map", "map", "int-keyed-map", "odd-map", "override-tag"} -> "object"
                    [] k = "reset-tag" -> "null"
                    [] k = "int" -> "integer" [] k = "float" -> "number" [] k = "bool" -> "boolean" [] k = "null" -> "null" [] OTHER -> "string"
@@ -18,7 +28,7 @@ Admits(p, k) == LET a == ToSet(p.admits) IN
 VARIABLE cs
 TInit == /\ absent = {} /\ opts = {} /\ pc = 1 /\ outcome = "none" /\ names = ""     \* the pipeline variables are not used here
          /\ \/ \E i \in 1..Len(Paths) : \E k \in Kinds : \E pos \in Positions :
-              cs = [family |-> "kind", path |-> i, kind |-> k, position |-> pos,
+              cs = [family |-> "kind", path |-> i, kind |-> k, position |-> pos, opts |-> OptsOf(i, k, pos),
                     expect |-> IF Admits(Paths[i], k) THEN "either" ELSE "error"]
             \/ \E a \in SUBSET Refs : \E o \in SUBSET Switches :
                  cs = [family |-> "fault", absent |-> a, opts |-> o, expect |-> IF MustFail(a, o) THEN "error" ELSE "either"]
